@@ -281,6 +281,8 @@ mod sync;
 mod table;
 mod tracing;
 mod tracked_struct;
+#[cfg(feature = "salsa_verif")]
+pub mod verif;
 mod views;
 mod zalsa;
 mod zalsa_local;
